@@ -194,9 +194,71 @@ fn one(e: &mut EnumCtx, bytes: &[u8]) {
     e.outcome(all.0);
 }
 
+/// (d) a code area that ENDS inside the instruction: the first `cut` bytes of the string are
+/// the whole code area (the decoder must notice that it ran out of bytes)
+fn truncated(e: &mut EnumCtx, bytes: &[u8], cut: usize) {
+    let code = &bytes[..cut];
+    for regs in [0usize, 3] {
+        let mut ax = match Axecutor::new(code, CODE_AT, CODE_AT) {
+            Ok(a) => a,
+            Err(_) => return,
+        };
+        ax.mem_init_area(DATA, vec![0x11; 0x100]).unwrap();
+        ax.mem_init_area(STK, vec![0x22; 0x100]).unwrap();
+        for k in 0..16 {
+            ax.reg_write_64(crate::emu::GPR64[k], if regs == 0 { DATA + 0x80 } else { 0xFFFF_FFFF_FFFF_FFF8 }).unwrap();
+        }
+        if regs == 0 {
+            ax.reg_write_64(SR::RSP, STK + 0x80).unwrap();
+        }
+        let out = crate::emu::step(&mut ax);
+        e.count("transitions", 1);
+        e.count("truncated_cases", 1);
+        match &out {
+            StepOut::Ok(_) => e.count("ok", 1),
+            StepOut::Err(_) => e.count("err", 1),
+            StepOut::Panic(p) => {
+                e.count("panic", 1);
+                let key = format!("step|panic@{}", p.tag());
+                e.finding(
+                    &key,
+                    || format!("step on a code area of {cut} byte(s) [{}] panicked at {}: {}", crate::common::hex(code), p.loc, crate::emu::first_line(&p.msg)),
+                    || json!({"bytes": crate::common::hex(code), "truncated_code_area": cut, "regs": regs}),
+                );
+            }
+        }
+    }
+}
+
 fn gen(thorough: bool) -> impl Fn(&mut EnumCtx) + Sync {
     move |e: &mut EnumCtx| {
         sys_sweep(e);
+        // (d) truncated code areas: every 1- and 2-byte prefix x 4 fillers x every cut 1..=14
+        {
+            let fillers: [[u8; 14]; 4] = [[0x00; 14], [0xFF; 14], [0x24, 0x25, 0x10, 0x20, 0x30, 0x40, 0x50, 0x60, 0x70, 0x80, 0x90, 0xA0, 0xB0, 0xC0], [0x90; 14]];
+            let mut buf: Vec<u8> = Vec::with_capacity(24);
+            for b01 in 0..65536u32 {
+                for f in fillers.iter() {
+                    for cut in 1..=14usize {
+                        if !e.next() {
+                            continue;
+                        }
+                        buf.clear();
+                        buf.push((b01 >> 8) as u8);
+                        buf.push(b01 as u8);
+                        buf.extend_from_slice(f);
+                        e.describe("truncated", &format!("{} cut {cut}", crate::common::hex(&buf[..cut.min(6)])));
+                        let mut fp = crate::common::Fp::new();
+                        fp.bytes(&buf[..cut]);
+                        fp.u64(0x7472756e63);
+                        e.state(fp.0);
+                        e.outcome(fp.0);
+                        let b = buf.clone();
+                        truncated(e, &b, cut);
+                    }
+                }
+            }
+        }
         let fillers: [[u8; 14]; 4] = [[0x00; 14], [0xFF; 14], [0x24, 0x25, 0x10, 0x20, 0x30, 0x40, 0x50, 0x60, 0x70, 0x80, 0x90, 0xA0, 0xB0, 0xC0], [0x90; 14]];
         let mut buf: Vec<u8> = Vec::with_capacity(24);
         // (a) all 1- and 2-byte prefixes (thorough: all 3-byte prefixes)
@@ -310,7 +372,7 @@ pub fn run(tier: Tier) -> i32 {
         run.findings.merge(f);
         run.cov("devlike_profile_run", summary);
     }
-    enum_evidence(&mut run, &out, "one case = a byte string used as code: (a) every 1- and 2-byte prefix x 4 fillers (thorough: every 3-byte prefix x 2 fillers), (b) legacy prefix menu x REX menu x every 1-byte and 0F-escaped opcode x every ModRM x SIB menu; each stepped in 5 (layout, register state) combinations: code only / code+data+stack with all registers pointing into mapped memory, code+data+stack with distinct filler and all flags set, and areas at both ends of the address space with all registers 0 / all registers 2^64-8, under catch_unwind, an allocation guard and a hang watchdog; FS/GS bases are part of the register state (0 / small / large enough to wrap); (c) the `syscall` instruction with the built-in brk/pipe/exit/arch_prctl handlers installed x 9 syscall numbers x (12 boundary values + the live pipe descriptors) x 12 x 12 argument values, on a fresh machine, on one where a pipe holding data and the heap exist, and on one where in addition the heap is the highest area below an area on the last page of the address space; states = distinct 8-byte code prefixes; distinct_nontrivial = distinct (first 8 bytes, outcome class and RIP of the 5 runs)");
+    enum_evidence(&mut run, &out, "one case = a byte string used as code: (a) every 1- and 2-byte prefix x 4 fillers (thorough: every 3-byte prefix x 2 fillers), (b) legacy prefix menu x REX menu x every 1-byte and 0F-escaped opcode x every ModRM x SIB menu; each stepped in 5 (layout, register state) combinations: code only / code+data+stack with all registers pointing into mapped memory, code+data+stack with distinct filler and all flags set, and areas at both ends of the address space with all registers 0 / all registers 2^64-8, under catch_unwind, an allocation guard and a hang watchdog; FS/GS bases are part of the register state (0 / small / large enough to wrap); (c) the `syscall` instruction with the built-in brk/pipe/exit/arch_prctl handlers installed x 9 syscall numbers x (12 boundary values + the live pipe descriptors) x 12 x 12 argument values, on a fresh machine, on one where a pipe holding data and the heap exist, and on one where in addition the heap is the highest area below an area on the last page of the address space; (d) every 2-byte prefix x 4 fillers cut to every length 1..14 as the WHOLE code area (an instruction that runs past the end of the code); states = distinct 8-byte code prefixes; distinct_nontrivial = distinct (first 8 bytes, outcome class and RIP of the 5 runs)");
     run.guard("cases", out.cases >= 1_000_000 || out.capped, format!("{} byte strings", out.cases));
     let okc = out.counters.get("ok").cloned().unwrap_or(0);
     let errc = out.counters.get("err").cloned().unwrap_or(0);
